@@ -178,6 +178,14 @@ int cif_packet_create_norm(cif_packet_tp **packet, UChar **names, int avoid_alia
         return CIF_OK;
 
         FAILURE_HANDLER(soft):
+        if ((temp_packet->map.head != NULL) && (temp_packet->map.head->hh.tbl == NULL)) {
+            /*
+             * uthash could not allocate its table for the first entry: HASH_ADD_KEYPTR has already made that entry the
+             * head, but it belongs to no table, and the hash macros must not be applied to it.  Release it directly.
+             */
+            cif_map_entry_free_internal(temp_packet->map.head, &(temp_packet->map));
+            temp_packet->map.head = NULL;
+        }
         cif_packet_free(temp_packet);
     }
 
